@@ -1182,7 +1182,7 @@ fn factorial(n: int, step: int ?= 1)->int{
 }
 
 fn floor_root(a: int, b: int ?= 2)->int{
-    if(a<0, error("a must be non-negative"), range(1, a).bisect((x:int)->{x**b <= a}))
+    if(a<0, error("a must be non-negative"), range(1, a+1).bisect((x:int)->{x**b <= a}))
 }
 
 /// float 2
